@@ -1345,7 +1345,7 @@ func (e *ex) wrote(id string, cs *cstate, data, delta []byte, n int, err error, 
 	}
 	// throttles (measurement): B body bytes inside a throttle interval of bandwidth bw need at least
 	// ceil(B/bw) fills of the connection's own bucket; the first may be cut short by the drain phase and
-	// the last needs no wait, hence -2 intervals
+	// the last needs no wait, hence -2 intervals, and one more for tolerance
 	if cs.tick > 0 && r.gen == e.gen && st == "ok" {
 		var tw time.Duration
 		for _, t := range os.thr {
@@ -1356,8 +1356,8 @@ func (e *ex) wrote(id string, cs *cstate, data, delta []byte, n int, err error, 
 			if t[1] >= 0 && t[1] < hi {
 				hi = t[1]
 			}
-			if t[2] > 0 && hi-lo >= 3*t[2] {
-				tw += time.Duration((hi-lo+t[2]-1)/t[2]-2) * cs.tick
+			if t[2] > 0 && hi-lo >= 4*t[2] {
+				tw += time.Duration((hi-lo+t[2]-1)/t[2]-3) * cs.tick
 			}
 		}
 		if tw > 0 {
